@@ -64,6 +64,9 @@ def h_prev_pos(W, ob):
     b = alts.get('(arg1 Sub 1)')
     ok = a is not None and b is not None and every_disjunct_has(a, lambda x: match_lin(x, [(exact('arg1'), 1)], eq=0)) and \
         every_disjunct_has(b, lambda x: match_lin(x, [(exact('arg1'), 1)], neq=0) or match_lin(x, [(exact('arg1'), 1)], lo=1))
+    if set(alts) <= {'(((arg1 Add INPUT_QUEUE_LENGTH) Sub 1) Rem INPUT_QUEUE_LENGTH)', '(((INPUT_QUEUE_LENGTH Add arg1) Sub 1) Rem INPUT_QUEUE_LENGTH)',
+                     '((arg1 Add (INPUT_QUEUE_LENGTH Sub 1)) Rem INPUT_QUEUE_LENGTH)'} and len(alts) == 1:
+        ok = True   # the same function written with modular arithmetic
     ob.check(ok and W.const('INPUT_QUEUE_LENGTH') == 128, 'prev_pos|ring-predecessor', 'prev_pos(head) is the ring predecessor of head (INPUT_QUEUE_LENGTH = 128)',
              'prev_pos is not {LEN-1 if head == 0, head-1 otherwise}: %s' % sorted(alts), where(f))
 
@@ -93,7 +96,15 @@ def h_get_cell(W, ob):
     n = W.fn('sync_layer::SavedStates::new')
     cxn = W.ctx(n)
     rng = [s for s in n.stmts() if s.k == 'assign' and s.rv.k == 'agg' and s.rv.j.get('ak') == 'adt' and s.rv.j['adt'].endswith('ops::Range')]
-    okn = any(key(cxn.expr_operand(dict(zip(s.rv.j['fields'], s.rv.ops))['end'])) == '(arg1 Add 1)' for s in rng)
+    okn = any(key(cxn.expr_operand(dict(zip(s.rv.j['fields'], s.rv.ops))['end'])) == '(arg1 Add 1)' and
+              key(cxn.expr_operand(dict(zip(s.rv.j['fields'], s.rv.ops))['start'])) == '0' for s in rng)
+    # spelled 0..=max_pred, or vec![..; max_pred + 1] / resize_with(max_pred + 1, ..)
+    for t in n.calls():
+        a = [key(cxn.expr_operand(x)) for x in t.args]
+        if callee_matches(t.callee, 'RangeInclusive::new') and a == ['0', 'arg1']:
+            okn = True
+        if last_seg(t.callee.best) in ('from_elem', 'resize_with', 'resize') and '(arg1 Add 1)' in a:
+            okn = True
     ob.check(okn, 'SavedStates::new|cells', 'there are max_prediction + 1 cells (current frame plus the whole window)',
              'SavedStates::new does not create max_prediction + 1 cells', where(n))
 
